@@ -316,6 +316,54 @@ def run(ctx, res):
         res.violation(rid4, "resolution", "an inline literal is resolved through another key than the one checked", ri.loc())
     else:
         res.anchor_lost(rid4, "resolution of inline literals through terminals_matches not recognised", ri.loc())
+    # R4b the text of a literal is decoded in one pass
+    rid4b = res.rule("C09-R4b", "the text of a string literal is decoded in one pass: no replacement is applied to the product of an "
+                     "earlier replacement that can complete its pattern (`\\\\n` is a backslash and an n, not a line feed)", floor=1)
+    sc = F.fn("rustemo_compiler::lang::rustemo_actions::str_const")
+    if sc is None:
+        res.anchor_lost(rid4b, "rustemo_actions::str_const not found")
+    else:
+        def rust_unescape(s):
+            out, i = [], 0
+            m = {"n": "\n", "t": "\t", "r": "\r", "\\": "\\", "'": "'", '"': '"', "0": "\0"}
+            while i < len(s):
+                if s[i] == "\\" and i + 1 < len(s) and s[i + 1] in m:
+                    out.append(m[s[i + 1]]); i += 2
+                else:
+                    out.append(s[i]); i += 1
+            return "".join(out)
+        def feeds(rep, pat):
+            if not rep:
+                return False
+            if pat in rep:
+                return True
+            return any(pat.startswith(rep[-k:]) for k in range(1, min(len(rep), len(pat) - 1) + 1)) or \
+                any(pat.endswith(rep[:k]) for k in range(1, min(len(rep), len(pat) - 1) + 1))
+        chain = []
+        for p in Sim(sc, F).run():
+            cur = []
+            for e in p.events:
+                if e[0] == "call" and e[1].endswith("str>::replace") and len(e[2]) == 3:
+                    pat, rep = mir.const_str(e[2][1]), mir.const_str(e[2][2])
+                    inner = mir.has_call(e[2][0], "str>::replace")
+                    cur.append((rust_unescape(pat) if pat is not None else None, rust_unescape(rep) if rep is not None else None, inner))
+            if len(cur) > len(chain):
+                chain = cur
+        bad = []
+        for j, (pj, rj, inner) in enumerate(chain):
+            if not inner:
+                continue
+            for i in range(j):
+                pi, ri_ = chain[i][0], chain[i][1]
+                if None in (pi, ri_, pj):
+                    bad.append("a replacement with a computed pattern follows another replacement")
+                elif feeds(ri_, pj):
+                    bad.append("%r -> %r is followed by %r -> %r" % (pi, ri_, pj, rj))
+        if bad:
+            res.violation(rid4b, "str_const/single-pass", "string literals are decoded by chained replacements, and the product of one "
+                          "can complete the pattern of a later one: " + "; ".join(bad[:3]), sc.loc())
+        else:
+            res.ok(rid4b, "str_const/single-pass", sc.loc(), "%d chained replace call(s), none feeds a later one" % len(chain))
     # R5 desugar templates
     rid5 = res.rule("C09-R5", "helper rules of ?, *, + (and + with separator) have the documented right-hand sides", floor=6)
     for fn, spec in DESUGAR_SPEC.items():
